@@ -5,12 +5,17 @@
    of the crate) and FsMgr.open_raw_volume, and, for each conjunct that does NOT follow, a
    concrete boot sector that mounts and violates it.
    1 inversion of bpb_create / parse_volume: mount_facts, the relational reading of the code;
-   2 mount_layout: the part of part_layout every mounted volume has; C04_mount_layout: the
-     exact gap - part_layout holds IFF four unchecked BPB conditions (mount_checks) hold;
-   3 the other volume predicates (mount_vol_ok, mount_fat_layout, mount_clusters_fit,
-     mount_link_ok, mount_spc, mount_info_ok, mount_hint_ok);
+   2 mount_layout / mount_checks: what every mounted volume has; C04_mount_layout: part_layout
+     (w.r.t. the BPB's total block count and FAT size) holds of EVERY mounted volume - the four
+     conditions (reserved >= 1, FATs >= 1, cluster count below the bad-cluster mark, the FAT covers
+     the clusters) that were unchecked before the repairs D35-D37 are now refusals of the code;
+     mount_layout_nblocks: the same w.r.t. the partition entry's size v_nblocks needs, in
+     addition, that the BPB's total does not exceed it - that is NOT checked (known finding D38);
+   3 the other volume predicates, all unconditional now (mount_vol_ok, mount_fat_layout,
+     mount_clusters_fit, mount_link_ok, mount_spc, mount_info_ok, mount_hint_ok);
    4 open_raw_volume: C04_open_volume_layout;
-   5 witnesses mount_refutes_*: boot sectors the code mounts although a conjunct fails;
+   5 witnesses: *_refused - the boot sectors that used to mount although a conjunct failed are
+     refused now (FormatError); open_refutes_partition_size - the recorded known finding;
    6 non-vacuity: a formatted FAT16 and a FAT32 boot sector mount and satisfy everything.
    Everything is for ALL inputs; no bounds.
    Build order: after PrBounds and PrOpenClose. *)
@@ -90,7 +95,7 @@ Record mount_facts (b : block) (id idx lba nb : N) (v : vol) : Prop := mk_mount_
   mf_min : 4085 <= v_clusters v;
   mf_t16 : v_fat32 v = false -> v_clusters v < 65525;
   mf_t32 : v_fat32 v = true -> 65525 <= v_clusters v /\ le16 b 42 = 0;
-  mf_dev : lba + (bpb_total_blocks b - 1) < U32;
+  mf_dev : lba + bpb_total_blocks b < U32;
   mf_id : v_id v = id;
   mf_idx : v_idx v = idx;
   mf_lba : v_lba v = lba;
@@ -110,7 +115,12 @@ Record mount_facts (b : block) (id idx lba nb : N) (v : vol) : Prop := mk_mount_
           lba + le16 b 48 < U32 /\ v_root_cluster v = le32 b 44 /\ v_name v = slice b 71 11 /\
           exists fc nx,
             v_free v = (if fc =? 4294967295 then None else Some fc) /\
-            v_next_free v = (if (nx =? 4294967295) || (nx =? 0) || (nx =? 1) then None else Some nx)
+            v_next_free v = (if (nx =? 4294967295) || (nx =? 0) || (nx =? 1) then None else Some nx);
+  (* the refusals added by the repairs D35-D37 *)
+  mf_reserved : 1 <= le16 b 14;
+  mf_nfats : 1 <= get8 b 16;
+  mf_cover : (v_clusters v + 2) * fat_width v <= bpb_fat_size b * 512;
+  mf_count32 : v_fat32 v = true -> v_clusters v <= 268435445
 }.
 
 Theorem parse_volume_inv id idx lba nb s v s' : parse_volume id idx lba nb s = (Ok v, s') ->
@@ -123,7 +133,13 @@ Proof.
   apply cache_read_ok_inv in Hb. destruct Hb as (_ & Bv & Bn & Bl & _ & Bm).
   inv_bind H as p s2 Hc. destruct p as [cc f32]. cbv beta iota in H.
   apply bpb_create_inv in Hc. destruct Hc as (-> & Hsig & Hnd & Htot & Hspc & Hcc & Hmin & H16 & H32).
-  destruct (N.leb_spec U32 (lba + (bpb_total_blocks b - 1))) as [Hdev|Hdev]; [exfalso; exact (fail_inv _ _ _ _ H)|].
+  destruct (N.leb_spec U32 (lba + bpb_total_blocks b)) as [Hdev|Hdev]; [exfalso; exact (fail_inv _ _ _ _ H)|].
+  destruct (N.eqb_spec (le16 b 14) 0) as [Hr0|Hr0]; [exfalso; exact (fail_inv _ _ _ _ H)|].
+  destruct (N.eqb_spec (get8 b 16) 0) as [Hn0|Hn0]; [exfalso; exact (fail_inv _ _ _ _ H)|].
+  cbn [orb] in H.
+  destruct (N.ltb_spec (bpb_fat_size b * 512) ((cc + 2) * (if f32 then 4 else 2))) as [Hcv|Hcv];
+    [exfalso; exact (fail_inv _ _ _ _ H)|].
+  assert (Hr1 : 1 <= le16 b 14) by lia. assert (Hn1 : 1 <= get8 b 16) by lia. clear Hr0 Hn0.
   inv_bind H as second s3 Hs.
   assert (Hsec : s3 = s1 /\ second = (if get8 b 16 =? 2 then Some (le16 b 14 + bpb_fat_size b) else None)).
   { destruct (get8 b 16 =? 2).
@@ -134,6 +150,7 @@ Proof.
   destruct f32.
   - inv_bind H as nf s4 Hm. apply mul32_inv in Hm. destruct Hm as (-> & -> & Hm).
     inv_bind H as fd s4 Ha. apply add32_inv in Ha. destruct Ha as (-> & -> & Ha).
+    destruct (N.ltb_spec 268435445 cc) as [Hc32|Hc32]; [exfalso; exact (fail_inv _ _ _ _ H)|].
     destruct (N.eqb_spec (le16 b 48) 0) as [Hi0|Hi0]; [exfalso; exact (fail_inv _ _ _ _ H)|].
     destruct (N.leb_spec (le16 b 14) (le16 b 48)) as [Hi1|Hi1]; [exfalso; exact (fail_inv _ _ _ _ H)|].
     cbn [orb] in H.
@@ -144,11 +161,13 @@ Proof.
     destruct (le32 ib 508 =? 2857697280); [|exfalso; exact (fail_inv _ _ _ _ H)].
     cbn [negb] in H. apply ret_inv in H. destruct H as [-> ->].
     split; [|repeat split; congruence].
-    constructor; cbn [set_v_next_free set_v_free v_id v_idx v_lba v_nblocks v_name v_spc v_first_data v_fat_start
+    constructor; unfold fat_width;
+      cbn [set_v_next_free set_v_free v_id v_idx v_lba v_nblocks v_name v_spc v_first_data v_fat_start
                       v_second_fat v_free v_next_free v_clusters v_fat32 v_root_entries v_root_block v_info
                       v_root_cluster]; try assumption; try reflexivity; try discriminate.
     + rewrite N.add_0_r. reflexivity.
     + intros _. repeat (split; [assumption || reflexivity|]). exists (le32 ib 488), (le32 ib 492). split; reflexivity.
+    + intros _. exact Hc32.
   - destruct (N.eqb_spec (le16 b 11) 512) as [Hbs|Hbs]; [|exfalso; exact (fail_inv _ _ _ _ H)].
     cbn [negb] in H.
     inv_bind H as nf s4 Hm. apply mul32_inv in Hm. destruct Hm as (-> & -> & Hm).
@@ -156,7 +175,8 @@ Proof.
     inv_bind H as fd s4 Ha2. apply add32_inv in Ha2. destruct Ha2 as (-> & -> & Ha2).
     apply ret_inv in H. destruct H as [-> ->].
     split; [|repeat split; congruence].
-    constructor; cbn [v_id v_idx v_lba v_nblocks v_name v_spc v_first_data v_fat_start
+    constructor; unfold fat_width;
+      cbn [v_id v_idx v_lba v_nblocks v_name v_spc v_first_data v_fat_start
                       v_second_fat v_free v_next_free v_clusters v_fat32 v_root_entries v_root_block v_info
                       v_root_cluster]; try assumption; try reflexivity; try discriminate.
     intros _. repeat split; assumption || reflexivity.
@@ -166,8 +186,8 @@ Qed.
 Lemma mount_facts_set_id b id0 id idx lba nb v :
   mount_facts b id0 idx lba nb v -> mount_facts b id idx lba nb (set_v_id v id).
 Proof.
-  intros [A1 A2 A3 A4 A5 A6 A7 A8 A9 A10 A11 A12 A13 A14 A15 A16 A17 A18 A19 A20].
-  constructor; unfold set_v_id;
+  intros [A1 A2 A3 A4 A5 A6 A7 A8 A9 A10 A11 A12 A13 A14 A15 A16 A17 A18 A19 A20 A21 A22 A23 A24].
+  constructor; unfold set_v_id, fat_width in *;
     cbn [v_id v_idx v_lba v_nblocks v_name v_spc v_first_data v_fat_start v_second_fat v_free
          v_next_free v_clusters v_fat32 v_root_entries v_root_block v_info v_root_cluster]; try assumption.
   reflexivity.
@@ -234,7 +254,7 @@ Theorem mount_layout_holds b id idx lba nb v : mount_facts b id idx lba nb v ->
   mount_layout v (bpb_total_blocks b) (bpb_fat_size b).
 Proof.
   intros MF. destruct (mount_arith _ _ _ _ _ _ MF) as (X & P & rb & EX & EP & Erb & Erb' & HX & Hsum & Hnd & P0 & P1 & P2).
-  destruct MF as [Hsig _ Htot Hspc Ecc Hmin H16 H32 Hdev Eid Eidx Elba Enb Espc Efat Esec Efirst Hf32 HF16 HF32].
+  destruct MF as [Hsig _ Htot Hspc Ecc Hmin H16 H32 Hdev Eid Eidx Elba Enb Espc Efat Esec Efirst Hf32 HF16 HF32 Hres Hnf Hcov Hc32].
   rewrite <- EP in *. unfold U32 in *.
   constructor; unfold data_end, root_size; rewrite <- ?EX.
   - lia.
@@ -255,7 +275,8 @@ Proof.
   - intros E. destruct (HF32 E) as (I0 & I1 & Ei & _). lia.
 Qed.
 
-(* the four conditions on the boot sector that the mount code does NOT check *)
+(* the four conditions on the boot sector that the mount code did NOT check before the repairs
+   D35-D37; each is a refusal (FormatError) of parse_volume now: mount_checks_hold *)
 Record mount_checks (b : block) (v : vol) : Prop := mk_mount_checks {
   mc_reserved : 1 <= le16 b 14;                   (* BPB_RsvdSecCnt >= 1 : the FAT is not on the boot sector *)
   mc_nfats : 1 <= get8 b 16;                      (* BPB_NumFATs >= 1 : the data area starts behind the FAT *)
@@ -276,14 +297,14 @@ Proof.
 Qed.
 
 (* under the facts of a successful mount, the layout of PrBounds holds exactly when the four
-   unchecked conditions do *)
+   conditions do (this equivalence is why each of the four refusals is needed) *)
 Theorem mount_part_layout_iff b id idx lba nb v : mount_facts b id idx lba nb v ->
   (part_layout v (bpb_total_blocks b) (bpb_fat_size b) <-> mount_checks b v).
 Proof.
   intros MF. pose proof (mount_layout_holds _ _ _ _ _ _ MF) as ML.
   destruct (mount_arith _ _ _ _ _ _ MF) as (X & P & rb & EX & EP & Erb & Erb' & HX & Hsum & Hnd & P0 & P1 & P2).
   destruct ML as [L1 L2 L3 L4 L5 L6 L7 L8 L9 L10 L11 L12 L13].
-  destruct MF as [Hsig _ Htot Hspc Ecc Hmin H16 H32 Hdev Eid Eidx Elba Enb Espc Efat Esec Efirst Hf32 HF16 HF32].
+  destruct MF as [Hsig _ Htot Hspc Ecc Hmin H16 H32 Hdev Eid Eidx Elba Enb Espc Efat Esec Efirst Hf32 HF16 HF32 Hres Hnf Hcov Hc32].
   rewrite <- EP in *.
   split.
   - intros [A1 A2 A3 A4 A5 A6 A7 A8 A9]. constructor.
@@ -317,44 +338,33 @@ Proof.
     + exact L13.
 Qed.
 
-(* C04, mount side.  Every successful parse_volume yields a volume with the mount_layout facts;
-   PrBounds' part_layout (w.r.t. the BPB's total block count and FAT size) holds IFF the boot
-   sector also satisfies the four conditions the code does not check.  b is the boot sector the
-   code read (cached s lba: the cached block when the cache holds lba, else the device's). *)
-Theorem C04_mount_layout id idx lba_start num_blocks s v s' :
-  parse_volume id idx lba_start num_blocks s = (Ok v, s') ->
-  let b := cached s lba_start in
-  let total := bpb_total_blocks b in
-  let fsz := bpb_fat_size b in
-  v_lba v = lba_start /\ v_nblocks v = num_blocks /\ v_id v = id /\ v_idx v = idx /\
-  mount_layout v total fsz /\
-  (part_layout v total fsz <-> mount_checks b v) /\
-  (v_fat32 v = false -> (part_layout v total fsz <->
-       1 <= le16 b 14 /\ 1 <= get8 b 16 /\ (v_clusters v + 2) * 2 <= fsz * 512)) /\
-  (v_fat32 v = true -> (part_layout v total fsz <->
-       1 <= get8 b 16 /\ v_clusters v + 2 <= 268435447 /\ (v_clusters v + 2) * 4 <= fsz * 512)).
+Theorem mount_checks_hold b id idx lba nb v : mount_facts b id idx lba nb v -> mount_checks b v.
 Proof.
-  intros H. destruct (parse_volume_inv _ _ _ _ _ _ _ H) as (b & s1 & Hb & MF & _).
-  apply cache_read_ok_inv in Hb. destruct Hb as (-> & _). cbv zeta.
-  pose proof (mount_part_layout_iff _ _ _ _ _ _ MF) as Hiff.
-  pose proof (mount_layout_holds _ _ _ _ _ _ MF) as ML.
-  split; [exact (mf_lba _ _ _ _ _ _ MF)|]. split; [exact (mf_nb _ _ _ _ _ _ MF)|].
-  split; [exact (mf_id _ _ _ _ _ _ MF)|]. split; [exact (mf_idx _ _ _ _ _ _ MF)|].
-  split; [exact ML|]. split; [exact Hiff|]. split.
-  - intros E16. rewrite Hiff. split.
-    + intros [C1 C2 C3 C4]. unfold fat_width in C4. rewrite E16 in C4. auto.
-    + intros (C1 & C2 & C4). constructor; try assumption.
-      * unfold fat_bad. rewrite E16. pose proof (ml_count16 _ _ _ ML E16). lia.
-      * unfold fat_width. rewrite E16. exact C4.
-  - intros E32. rewrite Hiff. split.
-    + intros [C1 C2 C3 C4]. unfold fat_width in C4. unfold fat_bad in C3. rewrite E32 in C3, C4. auto.
-    + intros (C2 & C3 & C4). constructor; try assumption.
-      * pose proof (ml_reserved32 _ _ _ ML E32) as R. rewrite (mf_fat _ _ _ _ _ _ MF) in R. lia.
-      * unfold fat_bad. rewrite E32. exact C3.
-      * unfold fat_width. rewrite E32. exact C4.
+  intros MF. constructor.
+  - exact (mf_reserved _ _ _ _ _ _ MF).
+  - exact (mf_nfats _ _ _ _ _ _ MF).
+  - unfold fat_bad. pose proof (mf_t16 _ _ _ _ _ _ MF) as H16. pose proof (mf_count32 _ _ _ _ _ _ MF) as H32.
+    destruct (v_fat32 v); [specialize (H32 eq_refl)|specialize (H16 eq_refl)]; lia.
+  - exact (mf_cover _ _ _ _ _ _ MF).
 Qed.
 
-(* ================================================================== 3. the other volume predicates *)
+Theorem mount_part_layout b id idx lba nb v : mount_facts b id idx lba nb v ->
+  part_layout v (bpb_total_blocks b) (bpb_fat_size b).
+Proof. intros MF. apply (mount_part_layout_iff _ _ _ _ _ _ MF). exact (mount_checks_hold _ _ _ _ _ _ MF). Qed.
+
+Lemma mount_dev b id idx lba nb v : mount_facts b id idx lba nb v -> v_lba v + bpb_total_blocks b < U32.
+Proof. intros MF. rewrite (mf_lba _ _ _ _ _ _ MF). exact (mf_dev _ _ _ _ _ _ MF). Qed.
+
+(* part_layout mentions the total block count in two conjuncts only: the data area ends inside
+   it, and it ends inside the device *)
+Lemma part_layout_total v t t' f : part_layout v t f ->
+  (part_layout v t' f <-> data_end v <= t' /\ v_lba v + t' <= 4294967296).
+Proof.
+  intros [A1 A2 A3 A4 A5 A6 A7 A8 A9]. split.
+  - intros L. split; [exact (pl_data _ _ _ L)|exact (pl_dev _ _ _ L)].
+  - intros [B1 B2]. constructor; assumption.
+Qed.
+
 Lemma parse_volume_facts id idx lba nb s v s' : parse_volume id idx lba nb s = (Ok v, s') ->
   mount_facts (cached s lba) id idx lba nb v.
 Proof.
@@ -362,7 +372,53 @@ Proof.
   apply cache_read_ok_inv in Hb. destruct Hb as (-> & _). exact MF.
 Qed.
 
-(* ---- vol_ok: two of its four conjuncts always hold; the other two are exactly these ---- *)
+(* C04, mount side.  Every successful parse_volume yields a volume that has PrBounds' part_layout
+   w.r.t. the BPB's total block count and FAT size, and that ends before block 2^32 - 1 of the
+   device.  b is the boot sector the code read (cached s lba: the cached block when the cache holds
+   lba, else the device's).  No hypothesis on the boot sector: the four conditions mount_checks
+   are refusals of the code. *)
+Theorem C04_mount_layout id idx lba_start num_blocks s v s' :
+  parse_volume id idx lba_start num_blocks s = (Ok v, s') ->
+  let b := cached s lba_start in
+  let total := bpb_total_blocks b in
+  let fsz := bpb_fat_size b in
+  v_lba v = lba_start /\ v_nblocks v = num_blocks /\ v_id v = id /\ v_idx v = idx /\
+  v_lba v + total < U32 /\
+  mount_layout v total fsz /\ mount_checks b v /\ part_layout v total fsz.
+Proof.
+  intros H. pose proof (parse_volume_facts _ _ _ _ _ _ _ H) as MF. cbv zeta.
+  split; [exact (mf_lba _ _ _ _ _ _ MF)|]. split; [exact (mf_nb _ _ _ _ _ _ MF)|].
+  split; [exact (mf_id _ _ _ _ _ _ MF)|]. split; [exact (mf_idx _ _ _ _ _ _ MF)|].
+  split; [exact (mount_dev _ _ _ _ _ _ MF)|].
+  split; [exact (mount_layout_holds _ _ _ _ _ _ MF)|].
+  split; [exact (mount_checks_hold _ _ _ _ _ _ MF)|exact (mount_part_layout _ _ _ _ _ _ MF)].
+Qed.
+
+(* ... w.r.t. the partition entry's size v_nblocks (what PrGlobalDef.fs_inv asks for): exactly
+   when the data area ends inside the partition entry and the entry inside the device.  NEITHER
+   is checked by the code: the BPB's total is not compared with num_blocks (known finding D38, see
+   open_refutes_partition_size), and lba_start + num_blocks is never formed. *)
+Theorem mount_layout_nblocks_iff id idx lba nb s v s' : parse_volume id idx lba nb s = (Ok v, s') ->
+  (part_layout v (v_nblocks v) (bpb_fat_size (cached s lba)) <->
+   data_end v <= v_nblocks v /\ v_lba v + v_nblocks v <= 4294967296).
+Proof.
+  intros H. pose proof (parse_volume_facts _ _ _ _ _ _ _ H) as MF.
+  exact (part_layout_total _ _ _ _ (mount_part_layout _ _ _ _ _ _ MF)).
+Qed.
+
+(* in particular when the BPB's total block count does not exceed the partition entry's size *)
+Theorem mount_layout_nblocks id idx lba nb s v s' : parse_volume id idx lba nb s = (Ok v, s') ->
+  bpb_total_blocks (cached s lba) <= v_nblocks v -> v_lba v + v_nblocks v <= 4294967296 ->
+  part_layout v (v_nblocks v) (bpb_fat_size (cached s lba)).
+Proof.
+  intros H Ht Hd. apply (mount_layout_nblocks_iff _ _ _ _ _ _ _ H). split; [|exact Hd].
+  pose proof (parse_volume_facts _ _ _ _ _ _ _ H) as MF.
+  pose proof (ml_data _ _ _ (mount_layout_holds _ _ _ _ _ _ MF)). lia.
+Qed.
+
+(* ================================================================== 3. the other volume predicates *)
+(* ---- vol_ok: two of its four conjuncts follow from mount_layout alone; the other two are exactly
+   these (and follow from the refusals: mount_vol_ok) ---- *)
 Theorem mount_vol_ok_iff b id idx lba nb v : mount_facts b id idx lba nb v ->
   (vol_ok v <-> (v_clusters v + 2) * 4 < U32 /\ v_lba v + data_end v < U32).
 Proof.
@@ -380,23 +436,11 @@ Proof.
     + intros E16. destruct (L10 E16) as [R1 R2]. unfold root_size in R2. unfold U32 in *. lia.
 Qed.
 
-Theorem mount_vol_ok id idx lba nb s v s' : parse_volume id idx lba nb s = (Ok v, s') ->
-  (v_fat32 v = true -> v_clusters v + 2 <= 268435447) ->
-  lba + bpb_total_blocks (cached s lba) < U32 ->
-  vol_ok v.
+Theorem mount_vol_ok id idx lba nb s v s' : parse_volume id idx lba nb s = (Ok v, s') -> vol_ok v.
 Proof.
-  intros H Hc Hd. pose proof (parse_volume_facts _ _ _ _ _ _ _ H) as MF.
-  apply (mount_vol_ok_iff _ _ _ _ _ _ MF).
-  pose proof (mount_layout_holds _ _ _ _ _ _ MF) as ML.
-  pose proof (ml_data _ _ _ ML) as Hdata. pose proof (ml_count16 _ _ _ ML) as H16.
-  rewrite (mf_lba _ _ _ _ _ _ MF). unfold U32 in *.
-  destruct (v_fat32 v); [specialize (Hc eq_refl)|specialize (H16 eq_refl)]; lia.
+  intros H. pose proof (parse_volume_facts _ _ _ _ _ _ _ H) as MF.
+  exact (part_layout_vol_ok _ _ _ (mount_part_layout _ _ _ _ _ _ MF) (mount_dev _ _ _ _ _ _ MF)).
 Qed.
-
-(* FAT16 volumes whose last block is not block 2^32 - 1 of the device: unconditionally *)
-Corollary mount_vol_ok16 id idx lba nb s v s' : parse_volume id idx lba nb s = (Ok v, s') ->
-  v_fat32 v = false -> lba + bpb_total_blocks (cached s lba) < U32 -> vol_ok v.
-Proof. intros H E Hd. apply (mount_vol_ok _ _ _ _ _ _ _ H); [rewrite E; discriminate|exact Hd]. Qed.
 
 (* ---- fat_layout: three of its six conjuncts always hold ---- *)
 Theorem mount_fat_layout_iff b id idx lba nb v : mount_facts b id idx lba nb v ->
@@ -417,22 +461,14 @@ Proof.
 Qed.
 
 Theorem mount_fat_layout id idx lba nb s v s' : parse_volume id idx lba nb s = (Ok v, s') ->
-  mount_checks (cached s lba) v ->
-  v_lba v + data_end v < U32 ->
   fat_layout v (bpb_fat_size (cached s lba)).
 Proof.
-  intros H [C1 C2 C3 C4] Hd. pose proof (parse_volume_facts _ _ _ _ _ _ _ H) as MF.
-  apply (mount_fat_layout_iff _ _ _ _ _ _ MF).
-  destruct (mount_arith _ _ _ _ _ _ MF) as (X & P & rb & EX & EP & Erb & Erb' & HX & Hsum & Hnd & P0 & P1 & P2).
-  specialize (P1 C2).
-  split; [|split].
-  - apply (mount_vol_ok_iff _ _ _ _ _ _ MF). split; [|exact Hd].
-    unfold fat_bad in C3. unfold U32. destruct (v_fat32 v); lia.
-  - destruct (fat_width_cases v) as [E|E]; rewrite E in *; lia.
-  - rewrite (mf_fat _ _ _ _ _ _ MF), (mf_first _ _ _ _ _ _ MF), <- EP. destruct (v_fat32 v); lia.
+  intros H. pose proof (parse_volume_facts _ _ _ _ _ _ _ H) as MF.
+  exact (part_layout_fat_layout _ _ _ (mount_part_layout _ _ _ _ _ _ MF) (mount_dev _ _ _ _ _ _ MF)).
 Qed.
 
-(* ---- the cluster count stays below the bad-cluster mark: FAT16 always, FAT32 not ---- *)
+(* ---- the cluster count stays below the bad-cluster mark: FAT16 by the type decision, FAT32 by
+   the refusal of more than 0x0FFFFFF5 clusters ---- *)
 Theorem mount_clusters_fit_iff b id idx lba nb v : mount_facts b id idx lba nb v ->
   (PrWrite.clusters_fit v <-> (v_fat32 v = true -> v_clusters v + 2 <= 268435447)).
 Proof.
@@ -444,14 +480,13 @@ Proof.
 Qed.
 
 Theorem mount_clusters_fit id idx lba nb s v s' : parse_volume id idx lba nb s = (Ok v, s') ->
-  v_fat32 v = false \/ v_clusters v + 2 <= 268435447 -> PrWrite.clusters_fit v.
+  PrWrite.clusters_fit v.
 Proof.
-  intros H Hc. apply (mount_clusters_fit_iff _ _ _ _ _ _ (parse_volume_facts _ _ _ _ _ _ _ H)).
-  intros E. destruct Hc as [E'|Hc]; [congruence|exact Hc].
+  intros H. pose proof (parse_volume_facts _ _ _ _ _ _ _ H) as MF.
+  exact (mc_count _ _ (mount_checks_hold _ _ _ _ _ _ MF)).
 Qed.
 
-Theorem mount_link_ok id idx lba nb s v s' : parse_volume id idx lba nb s = (Ok v, s') ->
-  v_fat32 v = false \/ v_clusters v + 2 <= 268435447 -> PrCount.link_ok v.
+Theorem mount_link_ok id idx lba nb s v s' : parse_volume id idx lba nb s = (Ok v, s') -> PrCount.link_ok v.
 Proof. exact (mount_clusters_fit id idx lba nb s v s'). Qed.
 
 (* ---- always ---- *)
@@ -562,11 +597,40 @@ Proof.
   rewrite Pv, Mv. reflexivity.
 Qed.
 
+(* every volume predicate of PrBounds / PrAlloc / PrAllocEffect / PrCount / PrWrite / PrOpenClose,
+   from the facts of a successful mount *)
+Theorem mount_facts_all b id idx lba nb v : mount_facts b id idx lba nb v ->
+  part_layout v (bpb_total_blocks b) (bpb_fat_size b) /\ v_lba v + bpb_total_blocks b < U32 /\
+  vol_ok v /\ fat_layout v (bpb_fat_size b) /\
+  PrWrite.clusters_fit v /\ PrCount.link_ok v /\ 0 < v_spc v /\ PrOpenClose.info_ok v /\ hint_ok v.
+Proof.
+  intros MF. pose proof (mount_part_layout _ _ _ _ _ _ MF) as L. pose proof (mount_dev _ _ _ _ _ _ MF) as Hd.
+  pose proof (mount_layout_holds _ _ _ _ _ _ MF) as ML. pose proof (mount_checks_hold _ _ _ _ _ _ MF) as C.
+  split; [exact L|]. split; [exact Hd|].
+  split; [exact (part_layout_vol_ok _ _ _ L Hd)|].
+  split; [exact (part_layout_fat_layout _ _ _ L Hd)|].
+  split; [exact (mc_count _ _ C)|]. split; [exact (mc_count _ _ C)|].
+  split; [pose proof (ml_spc _ _ _ ML); lia|].
+  split.
+  - apply PrOpenClose.info_ok_intro. intros E32.
+    destruct (ml_info _ _ _ ML E32) as [I1 I2]. pose proof (ml_fat_data _ _ _ ML) as Hfd.
+    split; [|lia]. intros (c & _ & Ej). remember ((c * fat_w v) / 512) as q. lia.
+  - intros c Ec. destruct (v_fat32 v) eqn:E32.
+    + destruct (mf_32 _ _ _ _ _ _ MF E32) as (_ & _ & _ & _ & _ & _ & fc & nx & _ & En).
+      rewrite En in Ec.
+      destruct (N.eqb_spec nx 4294967295) as [A|A]; [discriminate Ec|].
+      destruct (N.eqb_spec nx 0) as [B|B]; [discriminate Ec|].
+      destruct (N.eqb_spec nx 1) as [C1|C1]; [discriminate Ec|].
+      cbn [orb] in Ec. inversion Ec. lia.
+    + destruct (mf_16 _ _ _ _ _ _ MF E32) as (_ & _ & _ & _ & En & _). congruence.
+Qed.
+
 (* C04, OpenVol side: the volume stored by a successful OpenVol idx starts at the partition
-   entry's start block, records the entry's size, and has the mount_layout facts; part_layout
-   holds IFF the four unchecked conditions hold.  NOTHING relates the BPB's total block count
-   (which bounds the data area: ml_data) to the entry's size v_nblocks: see
-   open_refutes_partition_size. *)
+   entry's start block, records the entry's size, has part_layout w.r.t. the BPB's total block
+   count and FAT size, ends before block 2^32 - 1 of the device, and satisfies every other volume
+   predicate.  NOTHING relates the BPB's total block count (which bounds the data area) to the
+   entry's size v_nblocks: see open_refutes_partition_size (known finding D38); when it does not
+   exceed it (and the entry ends inside the device), part_layout also holds w.r.t. v_nblocks. *)
 Theorem C04_open_volume_layout idx s id s' : open_raw_volume idx s = (Ok id, s') ->
   exists v, s_vols s' = s_vols s ++ [v] /\ v_id v = id /\ v_idx v = idx /\
     let mbr := cached s 0 in
@@ -574,30 +638,25 @@ Theorem C04_open_volume_layout idx s id s' : open_raw_volume idx s = (Ok id, s')
     exists b, b = cached (snd (cache_read 0 s)) (v_lba v) /\
       let total := bpb_total_blocks b in
       let fsz := bpb_fat_size b in
-      mount_layout v total fsz /\
-      (part_layout v total fsz <-> mount_checks b v) /\
-      hint_ok v /\ PrOpenClose.info_ok v /\ 0 < v_spc v.
+      mount_layout v total fsz /\ mount_checks b v /\
+      part_layout v total fsz /\ v_lba v + total < U32 /\
+      vol_ok v /\ fat_layout v fsz /\ PrWrite.clusters_fit v /\ PrCount.link_ok v /\
+      0 < v_spc v /\ PrOpenClose.info_ok v /\ hint_ok v /\
+      (part_layout v (v_nblocks v) fsz <-> data_end v <= v_nblocks v /\ v_lba v + v_nblocks v <= 4294967296) /\
+      (total <= v_nblocks v -> v_lba v + v_nblocks v <= 4294967296 -> part_layout v (v_nblocks v) fsz).
 Proof.
   intros H. destruct (open_raw_volume_inv _ _ _ _ H) as
     (mbr & s0 & b & v & Hm & Em & Hl & Hi & Hsig & Hst & Hty & Eb & MF & Ev & Eid).
   exists v. split; [exact Ev|]. split; [exact (mf_id _ _ _ _ _ _ MF)|]. split; [exact (mf_idx _ _ _ _ _ _ MF)|].
   cbv zeta. rewrite <- Em. split; [exact (mf_lba _ _ _ _ _ _ MF)|]. split; [exact (mf_nb _ _ _ _ _ _ MF)|].
-  exists b. rewrite Hm. cbn [snd]. rewrite (mf_lba _ _ _ _ _ _ MF). split; [exact Eb|].
+  exists b. rewrite Hm. cbn [snd]. split; [rewrite (mf_lba _ _ _ _ _ _ MF); exact Eb|].
   pose proof (mount_layout_holds _ _ _ _ _ _ MF) as ML.
-  split; [exact ML|]. split; [exact (mount_part_layout_iff _ _ _ _ _ _ MF)|].
-  split; [|split].
-  - intros c Ec. destruct (v_fat32 v) eqn:E32.
-    + destruct (mf_32 _ _ _ _ _ _ MF E32) as (_ & _ & _ & _ & _ & _ & fc & nx & _ & En).
-      rewrite En in Ec.
-      destruct (N.eqb_spec nx 4294967295) as [A|A]; [discriminate Ec|].
-      destruct (N.eqb_spec nx 0) as [B|B]; [discriminate Ec|].
-      destruct (N.eqb_spec nx 1) as [C|C]; [discriminate Ec|].
-      cbn [orb] in Ec. inversion Ec. lia.
-    + destruct (mf_16 _ _ _ _ _ _ MF E32) as (_ & _ & _ & _ & En & _). congruence.
-  - apply PrOpenClose.info_ok_intro. intros E32.
-    destruct (ml_info _ _ _ ML E32) as [I1 I2]. pose proof (ml_fat_data _ _ _ ML) as Hfd.
-    split; [|lia]. intros (c & _ & Ej). remember ((c * fat_w v) / 512) as q. lia.
-  - pose proof (ml_spc _ _ _ ML). lia.
+  split; [exact ML|]. split; [exact (mount_checks_hold _ _ _ _ _ _ MF)|].
+  destruct (mount_facts_all _ _ _ _ _ _ MF) as (A1 & A2 & A3 & A4 & A5 & A6 & A7 & A8 & A9).
+  repeat (split; [assumption|]).
+  pose proof (part_layout_total v _ (v_nblocks v) _ A1) as Hiff.
+  split; [exact Hiff|]. intros Ht Hd. apply Hiff. split; [|exact Hd].
+  pose proof (ml_data _ _ _ ML). lia.
 Qed.
 
 (* ================================================================== 5. witnesses *)
@@ -642,196 +701,109 @@ Definition mkdir_writes (s : st) : option (list N) :=
   | _ => None
   end.
 
-(* ---- each missing conjunct, refuted from the number that violates it ---- *)
-Lemma not_layout_reserved v t f : v_fat_start v < 1 -> ~ part_layout v t f.
-Proof. intros H L. pose proof (pl_reserved _ _ _ L). lia. Qed.
-Lemma not_layout_count v t f :
-  (if v_fat32 v then 268435447 else 65527) < v_clusters v + 2 -> ~ part_layout v t f.
-Proof. intros H L. pose proof (pl_count _ _ _ L). lia. Qed.
-Lemma not_layout_cover v t f : f * 512 < (v_clusters v + 2) * fat_width v -> ~ part_layout v t f.
-Proof. intros H L. pose proof (pl_cover _ _ _ L). lia. Qed.
-Lemma not_layout_root v t f :
-  (if v_fat32 v then v_first_data v else v_root_block v) < fats_end v f -> ~ part_layout v t f.
-Proof. intros H L. pose proof (pl_root _ _ _ L) as R. destruct (v_fat32 v); lia. Qed.
+(* ---- the boot sectors below are the witnesses of the defects D35-D37: before the repairs each of
+   them was mounted although one conjunct of part_layout (or of vol_ok) failed, and the crate then
+   wrote outside the region (boot sector, FAT, next partition) or panicked.  Each is REFUSED now
+   (FormatError), by parse_volume and so by OpenVol. ---- *)
 
 (* ---- pl_reserved (FAT16): reserved sector count 0.  FAT16, 512-byte sectors, 1 sector per
    cluster, 0 reserved, 2 FATs of 32 sectors, 512 root entries, 5096 sectors: 5000 clusters.
-   The first FAT copy starts ON the boot sector; the other three conditions hold. ---- *)
+   The first FAT copy would start ON the boot sector (making a directory allocated cluster 2,
+   whose FAT entry is bytes 4..5 of block 2048: the boot sector was written). ---- *)
 Definition wit_reserved : block := mk_boot 1 0 2 512 5096 32 0 0 0.
-Example mount_refutes_reserved :
-  match parse_volume 7 0 2048 5096 (dev [(2048, wit_reserved)]) with
-  | (Ok v, _) =>
-      bpb_total_blocks wit_reserved = 5096 /\ bpb_fat_size wit_reserved = 32 /\
-      mount_checksb wit_reserved v = (false, true, true, true) /\
-      v_fat32 v = false /\ v_clusters v = 5000 /\
-      v_fat_start v < 1 /\                   (* not pl_reserved *)
-      fat_sector v 0 2 = v_lba v             (* the FAT entry of cluster 2 is in the boot sector *)
-  | _ => False
-  end.
-Proof. vm_compute. repeat split; reflexivity. Qed.
-(* ... and the model (as the crate) then WRITES the boot sector: making a directory allocates
-   cluster 2, whose FAT entry is bytes 4..5 of block 2048 *)
-Example open_reserved_writes_boot_sector :
-  mkdir_writes (dev [(0, mk_mbr (6, 2048, 5096) (0, 0, 0)); (2048, wit_reserved)])
-  = Some [2048; 2080; 2144; 2112].
-Proof. vm_compute. reflexivity. Qed.
+Example mount_reserved_refused :
+  le16 wit_reserved 14 = 0 /\
+  fst (parse_volume 7 0 2048 5096 (dev [(2048, wit_reserved)])) = Err FormatError.
+Proof. vm_compute. split; reflexivity. Qed.
+Example open_reserved_refused :
+  let s := dev [(0, mk_mbr (6, 2048, 5096) (0, 0, 0)); (2048, wit_reserved)] in
+  fst (step (OpenVol 0) s) = Err FormatError /\ mkdir_writes s = None.
+Proof. vm_compute. split; reflexivity. Qed.
 
-(* ---- pl_count (FAT32): 268435446 clusters - the last cluster number is 0x0FFFFFF7, the
+(* ---- pl_count (FAT32): 268435446 clusters - the last cluster number would be 0x0FFFFFF7, the
    bad-cluster mark.  FAT32, 1 sector per cluster, 32 reserved, 2 FATs of 2097152 sectors
    (enough for all entries), FSInfo at 1, 272629782 sectors. ---- *)
 Definition wit_count : block := mk_boot 1 32 2 0 272629782 0 2097152 2 1.
-Example mount_refutes_count :
-  match parse_volume 7 0 2048 272629782 (dev [(2048, wit_count); (2049, no_info)]) with
-  | (Ok v, _) =>
-      bpb_total_blocks wit_count = 272629782 /\ bpb_fat_size wit_count = 2097152 /\
-      mount_checksb wit_count v = (true, true, false, true) /\
-      v_fat32 v = true /\ v_clusters v = 268435446 /\
-      268435447 < v_clusters v + 2           (* not pl_count *)
-  | _ => False
-  end.
-Proof. vm_compute. repeat split; reflexivity. Qed.
+Example mount_count_refused :
+  (bpb_total_blocks wit_count - bpb_non_data wit_count) / get8 wit_count 13 = 268435446 /\
+  (268435446 + 2) * 4 <= bpb_fat_size wit_count * 512 /\
+  fst (parse_volume 7 0 2048 272629782 (dev [(2048, wit_count); (2049, no_info)])) = Err FormatError.
+Proof. vm_compute. repeat split; try reflexivity; discriminate. Qed.
 
 (* ---- pl_cover (FAT16): a FAT of 1 sector (256 entries) for 5000 clusters.  1 sector per
    cluster, 1 reserved, 2 FATs of 1 sector, 512 root entries, 5035 sectors.  The entry of
-   cluster 256 is in FAT copy 1, of the clusters 512 .. 5001 in the root directory region. ---- *)
+   cluster 256 would be in FAT copy 1, of the clusters 512 .. 5001 in the root directory region. ---- *)
 Definition wit_cover16 : block := mk_boot 1 1 2 512 5035 1 0 0 0.
-Example mount_refutes_cover16 :
-  match parse_volume 7 0 2048 5035 (dev [(2048, wit_cover16)]) with
-  | (Ok v, _) =>
-      bpb_total_blocks wit_cover16 = 5035 /\ bpb_fat_size wit_cover16 = 1 /\
-      mount_checksb wit_cover16 v = (true, true, true, false) /\
-      v_fat32 v = false /\ v_clusters v = 5000 /\
-      1 * 512 < (v_clusters v + 2) * fat_width v /\          (* not pl_cover *)
-      fat_sector v 0 256 = fat_sector v 1 0 /\
-      fat_sector v 0 512 = v_lba v + v_root_block v /\
-      v_lba v + v_root_block v < fat_sector v 0 5001 /\ fat_sector v 0 5001 < v_lba v + v_first_data v
-  | _ => False
-  end.
+Example mount_cover16_refused :
+  (bpb_total_blocks wit_cover16 - bpb_non_data wit_cover16) / get8 wit_cover16 13 = 5000 /\
+  bpb_fat_size wit_cover16 * 512 < (5000 + 2) * 2 /\
+  fst (parse_volume 7 0 2048 5035 (dev [(2048, wit_cover16)])) = Err FormatError.
 Proof. vm_compute. repeat split; reflexivity. Qed.
 
-(* ---- pl_cover (FAT32): a FAT of 1 sector (128 entries) for 70000 clusters ---- *)
+(* ---- pl_cover (FAT32): a FAT of 1 sector (128 entries) for 70000 clusters (entry 256 would be
+   the first data block) ---- *)
 Definition wit_cover32 : block := mk_boot 1 32 2 0 70034 0 1 2 1.
-Example mount_refutes_cover32 :
-  match parse_volume 7 0 2048 70034 (dev [(2048, wit_cover32); (2049, no_info)]) with
-  | (Ok v, _) =>
-      bpb_total_blocks wit_cover32 = 70034 /\ bpb_fat_size wit_cover32 = 1 /\
-      mount_checksb wit_cover32 v = (true, true, true, false) /\
-      v_fat32 v = true /\ v_clusters v = 70000 /\
-      1 * 512 < (v_clusters v + 2) * fat_width v /\          (* not pl_cover *)
-      fat_sector v 0 256 = v_lba v + v_first_data v          (* entry 256: first data block *)
-  | _ => False
-  end.
+Example mount_cover32_refused :
+  (bpb_total_blocks wit_cover32 - bpb_non_data wit_cover32) / get8 wit_cover32 13 = 70000 /\
+  bpb_fat_size wit_cover32 * 512 < (70000 + 2) * 4 /\
+  fst (parse_volume 7 0 2048 70034 (dev [(2048, wit_cover32); (2049, no_info)])) = Err FormatError.
 Proof. vm_compute. repeat split; reflexivity. Qed.
 
-(* ---- pl_root, number of FATs = 0.  FAT32: the data area starts at the first FAT sector
-   (cluster 2 IS FAT sector 0).  FAT16: the root directory region starts at the first FAT
-   sector, and Mkdir writes the directory entry over the FAT. ---- *)
+(* ---- pl_root, number of FATs = 0.  FAT32: the data area would start at the first FAT sector
+   (cluster 2 IS FAT sector 0).  FAT16: the root directory region would start at the first FAT
+   sector, and Mkdir wrote the directory entry over the FAT (FAT sector 2049, the new directory's
+   cluster 2081, and then the root directory slot - again block 2049). ---- *)
 Definition wit_nfats32 : block := mk_boot 1 32 0 0 70032 0 600 2 1.
-Example mount_refutes_root32 :
-  match parse_volume 7 0 2048 70032 (dev [(2048, wit_nfats32); (2049, no_info)]) with
-  | (Ok v, _) =>
-      bpb_total_blocks wit_nfats32 = 70032 /\ bpb_fat_size wit_nfats32 = 600 /\
-      mount_checksb wit_nfats32 v = (true, false, true, true) /\
-      v_fat32 v = true /\ v_second_fat v = None /\
-      v_first_data v < fats_end v 600 /\                     (* not pl_root *)
-      cluster_first_block v 2 = fat_sector v 0 0
-  | _ => False
-  end.
-Proof. vm_compute. repeat split; reflexivity. Qed.
+Example mount_root32_refused :
+  get8 wit_nfats32 16 = 0 /\
+  fst (parse_volume 7 0 2048 70032 (dev [(2048, wit_nfats32); (2049, no_info)])) = Err FormatError.
+Proof. vm_compute. split; reflexivity. Qed.
 
 Definition wit_nfats16 : block := mk_boot 1 1 0 512 5033 32 0 0 0.
-Example mount_refutes_root16 :
-  match parse_volume 7 0 2048 5033 (dev [(2048, wit_nfats16)]) with
-  | (Ok v, _) =>
-      bpb_total_blocks wit_nfats16 = 5033 /\ bpb_fat_size wit_nfats16 = 32 /\
-      mount_checksb wit_nfats16 v = (true, false, true, true) /\
-      v_fat32 v = false /\ v_second_fat v = None /\
-      v_root_block v < fats_end v 32 /\                      (* not pl_root *)
-      v_lba v + v_root_block v = fat_sector v 0 0
-  | _ => False
-  end.
-Proof. vm_compute. repeat split; reflexivity. Qed.
-(* FAT sector 2049 (entry of cluster 2), the new directory's cluster 2081, and then the root
-   directory slot - again block 2049 *)
-Example open_nfats0_dir_over_fat :
-  mkdir_writes (dev [(0, mk_mbr (6, 2048, 5033) (0, 0, 0)); (2048, wit_nfats16)])
-  = Some [2049; 2081; 2049].
-Proof. vm_compute. reflexivity. Qed.
+Example mount_root16_refused :
+  get8 wit_nfats16 16 = 0 /\
+  fst (parse_volume 7 0 2048 5033 (dev [(2048, wit_nfats16)])) = Err FormatError.
+Proof. vm_compute. split; reflexivity. Qed.
+Example open_nfats0_refused :
+  let s := dev [(0, mk_mbr (6, 2048, 5033) (0, 0, 0)); (2048, wit_nfats16)] in
+  fst (step (OpenVol 0) s) = Err FormatError /\ mkdir_writes s = None.
+Proof. vm_compute. split; reflexivity. Qed.
 
-(* the unconditional statement is false of the model: *)
-Theorem C04_mount_layout_refuted :
-  exists id idx lba nb s v s', parse_volume id idx lba nb s = (Ok v, s') /\
-    ~ part_layout v (bpb_total_blocks (cached s lba)) (bpb_fat_size (cached s lba)).
-Proof.
-  exists 7, 0, 2048, 5096, (dev [(2048, wit_reserved)]).
-  pose proof mount_refutes_reserved as H.
-  destruct (parse_volume 7 0 2048 5096 (dev [(2048, wit_reserved)])) as [[v|e| |] s'] eqn:E; try contradiction.
-  exists v, s'. split; [reflexivity|].
-  destruct H as (_ & _ & _ & _ & _ & H & _). apply not_layout_reserved. exact H.
-Qed.
-
-(* ---- vol_ok, first missing conjunct: the volume ends exactly at block 2^32 of the device.
-   A correct FAT16 volume (all four conditions hold, so part_layout holds) at
-   lba = 2^32 - 5097: the last cluster is block 2^32 - 1, and `first + count` of its block
-   range overflows. ---- *)
+(* ---- vol_ok, first conjunct that used to be missing: the volume ends exactly at block 2^32 of
+   the device.  A correct FAT16 volume (all four conditions hold) at lba = 2^32 - 5097: the last
+   cluster would be block 2^32 - 1, and `first + count` of its block range overflowed (a directory
+   in the last cluster could not be listed: the dev profile of the crate panicked in
+   BlockIdx::range).  The device-end check compares lba + total (not lba + total - 1) now. ---- *)
 Definition wit_edge : block := mk_boot 1 1 2 512 5097 32 0 0 0.
 Definition edge_lba : N := 4294962199.
-Example mount_refutes_vol_ok_edge :
-  match parse_volume 7 0 edge_lba 5097 (dev [(edge_lba, wit_edge)]) with
-  | (Ok v, _) =>
-      bpb_total_blocks wit_edge = 5097 /\ bpb_fat_size wit_edge = 32 /\
-      mount_checksb wit_edge v = (true, true, true, true) /\
-      v_lba v + data_end v = U32                             (* not vo_data *)
-  | _ => False
-  end.
-Proof. vm_compute. repeat split; reflexivity. Qed.
-(* there, a directory in the last cluster (5001) cannot be listed: the model (dev profile of the
-   crate: BlockIdx::range computes 0xFFFFFFFF + 1) panics.  Root slot 0: directory "A" at
-   cluster 5001; FAT entry 5001 (sector 19 of the FAT, offset 274): end of chain *)
+Example mount_vol_ok_edge_refused :
+  edge_lba + bpb_total_blocks wit_edge = U32 /\
+  fst (parse_volume 7 0 edge_lba 5097 (dev [(edge_lba, wit_edge)])) = Err FormatError.
+Proof. vm_compute. split; reflexivity. Qed.
+(* root slot 0: directory "A" at cluster 5001; FAT entry 5001 (sector 19 of the FAT, offset 274):
+   end of chain *)
 Definition edge_dir : block := put16 (put8 (set_bytes zero_block 0 (65 :: repeat 32 10)) 11 16) 26 5001.
 Definition edge_fat : block := put16 zero_block 274 65535.
-Example open_edge_panics :
+Example open_edge_refused :
   let s := dev [(0, mk_mbr (6, edge_lba, 5097) (0, 0, 0)); (edge_lba, wit_edge);
                 (edge_lba + 65, edge_dir); (edge_lba + 20, edge_fat)] in
-  match step (OpenVol 0) s with
-  | (Ok (RHandle h), s1) =>
-      match step (OpenRoot h) s1 with
-      | (Ok (RHandle d), s2) =>
-          match step (OpenDir d [65]) s2 with
-          | (Ok (RHandle d2), s3) => fst (step (Iter d2 None) s3) = Panic
-          | _ => False
-          end
-      | _ => False
-      end
+  fst (step (OpenVol 0) s) = Err FormatError.
+Proof. vm_compute. reflexivity. Qed.
+(* one block lower the same volume mounts (and vol_ok holds: mount_vol_ok) *)
+Example mount_edge_minus_one_mounts :
+  match parse_volume 7 0 (edge_lba - 1) 5097 (dev [(edge_lba - 1, wit_edge)]) with
+  | (Ok v, _) => v_lba v + data_end v = U32 - 1
   | _ => False
   end.
 Proof. vm_compute. reflexivity. Qed.
 
-(* ---- vol_ok, second missing conjunct: 2^30 clusters, 4 * (N + 2) is no u32 (FAT32, 1 sector
-   per cluster, 1073741858 sectors) ---- *)
+(* ---- vol_ok, second conjunct that used to be missing: 2^30 clusters, 4 * (N + 2) is no u32
+   (FAT32, 1 sector per cluster, 1073741858 sectors) ---- *)
 Definition wit_entries : block := mk_boot 1 32 2 0 1073741858 0 1 2 1.
-Example mount_refutes_vol_ok_entries :
-  match parse_volume 7 0 2048 0 (dev [(2048, wit_entries); (2049, no_info)]) with
-  | (Ok v, _) => v_clusters v = 1073741824 /\ U32 < (v_clusters v + 2) * 4      (* not vo_entries *)
-  | _ => False
-  end.
-Proof. vm_compute. repeat split; reflexivity. Qed.
-
-Theorem mount_vol_ok_refuted :
-  exists id idx lba nb s v s', parse_volume id idx lba nb s = (Ok v, s') /\
-    part_layout v (bpb_total_blocks (cached s lba)) (bpb_fat_size (cached s lba)) /\ ~ vol_ok v.
-Proof.
-  exists 7, 0, edge_lba, 5097, (dev [(edge_lba, wit_edge)]).
-  pose proof mount_refutes_vol_ok_edge as H.
-  destruct (parse_volume 7 0 edge_lba 5097 (dev [(edge_lba, wit_edge)])) as [[v|e| |] s'] eqn:E; try contradiction.
-  exists v, s'. split; [reflexivity|].
-  destruct H as (_ & _ & Hc & Hd).
-  assert (Eb : cached (dev [(edge_lba, wit_edge)]) edge_lba = wit_edge) by (vm_compute; reflexivity).
-  rewrite Eb. split.
-  - pose proof (C04_mount_layout _ _ _ _ _ _ _ E) as C. cbv zeta in C. rewrite Eb in C.
-    destruct C as (_ & _ & _ & _ & _ & Hiff & _). apply Hiff. apply mount_checksb_ok. exact Hc.
-  - intros [_ _ V _]. unfold data_geom_ok in V. unfold data_end in Hd. rewrite N.add_assoc in Hd. lia.
-Qed.
+Example mount_vol_ok_entries_refused :
+  (bpb_total_blocks wit_entries - bpb_non_data wit_entries) / get8 wit_entries 13 = 1073741824 /\
+  fst (parse_volume 7 0 2048 0 (dev [(2048, wit_entries); (2049, no_info)])) = Err FormatError.
+Proof. vm_compute. split; reflexivity. Qed.
 
 (* ---- the stored hints are whatever the information sector says: a free count and a
    next-free hint far beyond the 137221 clusters of the volume are accepted (hint_ok holds:
@@ -872,6 +844,21 @@ Example open_partition_size_writes_next_partition :
   mkdir_writes dev_parts = Some [2; 34; 98; 66].
 Proof. vm_compute. reflexivity. Qed.
 
+(* so the layout w.r.t. the partition entry's size is NOT established by the mount code *)
+Theorem mount_layout_nblocks_refuted :
+  exists id idx lba nb s v s', parse_volume id idx lba nb s = (Ok v, s') /\
+    ~ part_layout v (v_nblocks v) (bpb_fat_size (cached s lba)).
+Proof.
+  exists 7, 0, 1, 97, (dev [(1, wit_edge)]).
+  assert (R : match parse_volume 7 0 1 97 (dev [(1, wit_edge)]) with
+              | (Ok v, _) => v_nblocks v = 97 /\ data_end v = 5097
+              | _ => False
+              end) by (vm_compute; split; reflexivity).
+  destruct (parse_volume 7 0 1 97 (dev [(1, wit_edge)])) as [[v|e| |] s'] eqn:E; try contradiction.
+  exists v, s'. split; [reflexivity|]. destruct R as [R1 R2].
+  intros L. apply (mount_layout_nblocks_iff _ _ _ _ _ _ _ E) in L. destruct L as [L _]. lia.
+Qed.
+
 (* ---- lba_start >= 1 is not checked either: block 0 can be master boot record and boot sector
    at once (entry 0: start 0).  Harmless for C04: part_layout has no such conjunct, and the
    regions start behind v_lba, so block 0 is still never written. ---- *)
@@ -891,27 +878,15 @@ Example open_lba0_writes : mkdir_writes (dev [(0, wit_lba0)]) = Some [1; 33; 97;
 Proof. vm_compute. reflexivity. Qed.
 
 (* ================================================================== 6. everything together; non-vacuity *)
-(* a boot sector that passes the four extra conditions, in a partition that ends before block
-   2^32 - 1 of the device: every volume hypothesis of PrBounds / PrAlloc / PrAllocEffect / PrCount / PrWrite /
-   PrOpenClose holds of the mounted volume *)
+(* every volume hypothesis of PrBounds / PrAlloc / PrAllocEffect / PrCount / PrWrite / PrOpenClose
+   holds of every mounted volume - no condition on the boot sector or the device is left *)
 Theorem mount_establishes_all id idx lba nb s v s' :
   parse_volume id idx lba nb s = (Ok v, s') ->
   let b := cached s lba in
-  mount_checks b v -> lba + bpb_total_blocks b < U32 ->
-  part_layout v (bpb_total_blocks b) (bpb_fat_size b) /\ vol_ok v /\ fat_layout v (bpb_fat_size b) /\
+  part_layout v (bpb_total_blocks b) (bpb_fat_size b) /\ v_lba v + bpb_total_blocks b < U32 /\
+  vol_ok v /\ fat_layout v (bpb_fat_size b) /\
   PrWrite.clusters_fit v /\ PrCount.link_ok v /\ 0 < v_spc v /\ PrOpenClose.info_ok v /\ hint_ok v.
-Proof.
-  intros H b C Hd. pose proof (C04_mount_layout _ _ _ _ _ _ _ H) as CL. cbv zeta in CL. fold b in CL.
-  destruct CL as (El & _ & _ & _ & _ & Hiff & _).
-  assert (L : part_layout v (bpb_total_blocks b) (bpb_fat_size b)) by (apply Hiff; exact C).
-  assert (Hd' : v_lba v + bpb_total_blocks b < U32) by (rewrite El; exact Hd).
-  split; [exact L|].
-  split; [exact (part_layout_vol_ok _ _ _ L Hd')|].
-  split; [exact (part_layout_fat_layout _ _ _ L Hd')|].
-  split; [exact (mc_count _ _ C)|]. split; [exact (mc_count _ _ C)|].
-  split; [exact (mount_spc _ _ _ _ _ _ _ H)|].
-  split; [exact (mount_info_ok _ _ _ _ _ _ _ H)|exact (mount_hint_ok _ _ _ _ _ _ _ H)].
-Qed.
+Proof. intros H b. exact (mount_facts_all _ _ _ _ _ _ (parse_volume_facts _ _ _ _ _ _ _ H)). Qed.
 
 (* a formatted FAT16 volume: 4 sectors per cluster, 4 reserved, 2 FATs of 256 sectors, 512 root
    entries, 250000 sectors (62363 clusters; FAT copies at 4 and 260, root region at 516, data
@@ -931,7 +906,7 @@ Proof. vm_compute. repeat split; reflexivity. Qed.
 
 Example ex_mount16 :
   exists v s', parse_volume 7 0 2048 250000 ex_dev16 = (Ok v, s') /\
-    part_layout v 250000 256 /\ vol_ok v /\ fat_layout v 256 /\
+    part_layout v 250000 256 /\ v_lba v + 250000 < U32 /\ vol_ok v /\ fat_layout v 256 /\
     PrWrite.clusters_fit v /\ PrCount.link_ok v /\ 0 < v_spc v /\ PrOpenClose.info_ok v /\ hint_ok v.
 Proof.
   pose proof ex_mount16_runs as R.
@@ -939,7 +914,7 @@ Proof.
   exists v, s'. split; [reflexivity|].
   destruct R as (Eb & Et & Ef & Hc & _).
   pose proof (mount_establishes_all _ _ _ _ _ _ _ E) as A. cbv zeta in A. rewrite Eb, Et, Ef in A.
-  apply A; [apply mount_checksb_ok; exact Hc|reflexivity].
+  exact A.
 Qed.
 
 (* a formatted FAT32 volume: 8 sectors per cluster, 32 reserved, 2 FATs of 1100 sectors, FSInfo
@@ -961,7 +936,7 @@ Proof. vm_compute. repeat split; reflexivity. Qed.
 
 Example ex_mount32 :
   exists v s', parse_volume 7 0 2048 1100000 ex_dev32 = (Ok v, s') /\
-    part_layout v 1100000 1100 /\ vol_ok v /\ fat_layout v 1100 /\
+    part_layout v 1100000 1100 /\ v_lba v + 1100000 < U32 /\ vol_ok v /\ fat_layout v 1100 /\
     PrWrite.clusters_fit v /\ PrCount.link_ok v /\ 0 < v_spc v /\ PrOpenClose.info_ok v /\ hint_ok v.
 Proof.
   pose proof ex_mount32_runs as R.
@@ -969,7 +944,7 @@ Proof.
   exists v, s'. split; [reflexivity|].
   destruct R as (Eb & Et & Ef & Hc & _).
   pose proof (mount_establishes_all _ _ _ _ _ _ _ E) as A. cbv zeta in A. rewrite Eb, Et, Ef in A.
-  apply A; [apply mount_checksb_ok; exact Hc|reflexivity].
+  exact A.
 Qed.
 
 (* OpenVol 0 succeeds on both devices, so C04_open_volume_layout applies; the stored volume
@@ -991,11 +966,13 @@ Proof. vm_compute. repeat split; reflexivity. Qed.
 Print Assumptions parse_volume_inv.
 Print Assumptions mount_layout_holds.
 Print Assumptions mount_part_layout_iff.
+Print Assumptions mount_checks_hold.
+Print Assumptions mount_part_layout.
 Print Assumptions C04_mount_layout.
-Print Assumptions C04_mount_layout_refuted.
+Print Assumptions mount_layout_nblocks_iff.
+Print Assumptions mount_layout_nblocks.
 Print Assumptions mount_vol_ok_iff.
 Print Assumptions mount_vol_ok.
-Print Assumptions mount_vol_ok_refuted.
 Print Assumptions mount_fat_layout_iff.
 Print Assumptions mount_fat_layout.
 Print Assumptions mount_clusters_fit_iff.
@@ -1006,22 +983,25 @@ Print Assumptions mount_info_ok.
 Print Assumptions mount_hint_ok.
 Print Assumptions mount_hint_range.
 Print Assumptions open_raw_volume_inv.
+Print Assumptions mount_facts_all.
 Print Assumptions C04_open_volume_layout.
 Print Assumptions mount_establishes_all.
-Print Assumptions mount_refutes_reserved.
-Print Assumptions open_reserved_writes_boot_sector.
-Print Assumptions mount_refutes_count.
-Print Assumptions mount_refutes_cover16.
-Print Assumptions mount_refutes_cover32.
-Print Assumptions mount_refutes_root32.
-Print Assumptions mount_refutes_root16.
-Print Assumptions open_nfats0_dir_over_fat.
-Print Assumptions mount_refutes_vol_ok_edge.
-Print Assumptions open_edge_panics.
-Print Assumptions mount_refutes_vol_ok_entries.
+Print Assumptions mount_reserved_refused.
+Print Assumptions open_reserved_refused.
+Print Assumptions mount_count_refused.
+Print Assumptions mount_cover16_refused.
+Print Assumptions mount_cover32_refused.
+Print Assumptions mount_root32_refused.
+Print Assumptions mount_root16_refused.
+Print Assumptions open_nfats0_refused.
+Print Assumptions mount_vol_ok_edge_refused.
+Print Assumptions open_edge_refused.
+Print Assumptions mount_edge_minus_one_mounts.
+Print Assumptions mount_vol_ok_entries_refused.
 Print Assumptions mount_stale_hint.
 Print Assumptions open_refutes_partition_size.
 Print Assumptions open_partition_size_writes_next_partition.
+Print Assumptions mount_layout_nblocks_refuted.
 Print Assumptions open_lba0_mounts.
 Print Assumptions ex_mount16.
 Print Assumptions ex_mount32.
